@@ -5551,6 +5551,10 @@ impl PeerConnectionInner {
                 if let Some(receiver) = t.receiver() {
                     let track = receiver.track();
                     track.stop();
+                    // ... and end its packet loop: it would otherwise outlive the
+                    // closed connection for as long as the application keeps a
+                    // handle to it.
+                    receiver.stop();
                     tracing::trace!(
                         "PeerConnection.close: marked receiver track {} as ended",
                         track.id()
@@ -7127,6 +7131,12 @@ impl RtpReceiver {
                 None
             }
         }
+    }
+
+    /// Ends the receiver's packet loop (spawned by `set_transport`): the loop
+    /// returns when its command channel is closed.
+    pub(crate) fn stop(&self) {
+        self.runner_tx.lock().take();
     }
 
     pub fn set_transport(
